@@ -17,12 +17,20 @@ package dmap
 import (
 	"fmt"
 	"strconv"
+	"time"
 
 	"github.com/olric-data/olric/internal/cluster/partitions"
 	"github.com/olric-data/olric/internal/protocol"
 	"github.com/olric-data/olric/pkg/storage"
 	"github.com/tidwall/redcon"
 )
+
+// isEntryExpired reports whether the deadline of the entry has passed. An expired entry stays in the
+// storage until the background eviction finds it, it must not be listed in the meantime.
+func isEntryExpired(e storage.Entry) bool {
+	ttl := e.TTL()
+	return ttl != 0 && (time.Now().UnixNano()/1000000) >= ttl
+}
 
 func (dm *DMap) scanOnFragment(f *fragment, cursor uint64, sc *ScanConfig) ([]string, uint64, error) {
 	f.Lock()
@@ -33,7 +41,9 @@ func (dm *DMap) scanOnFragment(f *fragment, cursor uint64, sc *ScanConfig) ([]st
 
 	if sc.HasMatch {
 		cursor, err = f.storage.ScanRegexMatch(cursor, sc.Match, sc.Count, func(e storage.Entry) bool {
-			items = append(items, e.Key())
+			if !isEntryExpired(e) {
+				items = append(items, e.Key())
+			}
 			return true
 		})
 		if err != nil {
@@ -43,7 +53,9 @@ func (dm *DMap) scanOnFragment(f *fragment, cursor uint64, sc *ScanConfig) ([]st
 	}
 
 	cursor, err = f.storage.Scan(cursor, sc.Count, func(e storage.Entry) bool {
-		items = append(items, e.Key())
+		if !isEntryExpired(e) {
+			items = append(items, e.Key())
+		}
 		return true
 	})
 	if err != nil {
